@@ -2,6 +2,7 @@ import Rangers.Basic.Hex
 import Rangers.Basic.Line
 import Rangers.Basic.Keccak
 import Rangers.Model.TrieMachine
+import Rangers.Model.TrieIter
 /-
 C02 line-protocol driver.  State = the live trie model (`Trie.LTrie`: nodes with cache flags,
 hash nodes, cache generation / limit, node database); every trie operation goes through
@@ -48,6 +49,16 @@ def step (t : LTrie) (line : String) : LTrie × String :=
     | none => (t, "bad-op")
   | _ =>
     match parseOp line with
+    | some (.iter start) =>
+      -- `lstep` answers with `iterFrom` (the specification of the order); the iterator stack machine
+      -- (`Model/TrieIter`) is run next to it on the same expanded trie and must agree
+      let r := lstep H iterFuel t (.iter start)
+      let t' := (t.hash H).2
+      match expandFull t'.db iterFuel t'.root with
+      | some n =>
+        if Obs.pairs (iterMachine n start) == r.2 then (r.1, showObs r.2)
+        else (r.1, "model-iterator-machine-differs " ++ showObs (.pairs (iterMachine n start)))
+      | none => (r.1, showObs r.2)
     | some op => let r := lstep H iterFuel t op; (r.1, showObs r.2)
     | none => (t, "bad-op")
 
